@@ -40,7 +40,16 @@ type panicVal struct{ n int }
 // Released() (polled by Cleaner.ReleaseBuckets) from which the harness can attempt a concurrent AddBucket.
 type probe struct {
 	*cache.Cache[int]
-	w *world
+	w    *world
+	gate func() // called once, inside the first SetGeneration (the one Cleaner.AddBucket makes)
+}
+
+func (p *probe) SetGeneration(g *cache.Generation) {
+	if f := p.gate; f != nil {
+		p.gate = nil
+		f()
+	}
+	p.Cache.SetGeneration(g)
 }
 
 func (p *probe) Released() bool {
@@ -73,18 +82,65 @@ func (w *world) entrySize() uint64 {
 	return cache.NewCache[int](nil, nil).VerifEntrySize()
 }
 
-func (w *world) addCache() {
+func (w *world) addCache() { w.addCacheGated(nil) }
+
+// addCacheWithMaintenance registers a new cache while the maintainer's Rotate ('r') or Cleanup ('c') is attempted at
+// the moment AddBucket calls SetGeneration on the new bucket.  AddBucket does that inside the cleaner's critical
+// section, so the maintainer can only run after it: the observable result equals "NewCache; Rotate|Cleanup".
+func (w *world) addCacheWithMaintenance(kind byte) string {
+	entered, proceed, added, done := make(chan struct{}), make(chan struct{}), make(chan struct{}), make(chan string, 1)
+	go func() {
+		w.addCacheGated(func() {
+			close(entered)
+			select {
+			case <-proceed:
+			case <-time.After(5 * time.Second):
+			}
+		})
+		close(added)
+	}()
+	<-entered
+	go func() {
+		if kind == 'r' {
+			b, sz := w.cl.Rotate()
+			done <- fmt.Sprintf("r%s.%d", vh.B(b), sz)
+			return
+		}
+		st := &cache.CleanStat{}
+		before := w.rebuilt
+		if !w.cl.Cleanup(st) {
+			done <- "c0.0.0"
+			return
+		}
+		done <- fmt.Sprintf("c1.%d.%d.%d.%d.%d", st.SizeToClean, st.GensCleaned, st.BytesReleased, st.BucketsCleaned, w.rebuilt-before)
+	}()
+	var out string
+	got := false
+	select {
+	case out = <-done: // the maintainer got in between (only possible if SetGeneration is outside the critical section)
+		got = true
+	case <-time.After(25 * time.Millisecond):
+	}
+	close(proceed)
+	<-added
+	if !got {
+		out = <-done
+	}
+	return out
+}
+
+func (w *world) addCacheGated(gate func()) {
 	m := cache.VerifMetrics(nil, nil, func() { w.rebuilt++ })
 	if w.metrics != nil {
 		m = w.metrics()
 	}
 	// NewCache(cleaner, m) = NewCache(nil, m) + cleaner.AddBucket(bucket); the bucket is the probe around the cache
 	c := cache.NewCache[int](nil, m)
-	p := &probe{Cache: c, w: w}
-	w.cl.AddBucket(p)
+	p := &probe{Cache: c, w: w, gate: gate}
 	w.caches = append(w.caches, c)
 	w.probes = append(w.probes, p)
 	w.rel = append(w.rel, false)
+	w.cl.AddBucket(p)
 }
 
 // releaseBucketsWithAdd runs Cleaner.ReleaseBuckets while another goroutine tries to create a cache (AddBucket)
@@ -255,6 +311,11 @@ func (w *world) doOp(op string) (string, error) {
 		return fmt.Sprintf("n%d", w.cl.ReleaseBuckets()), nil
 	case 'B':
 		return fmt.Sprintf("n%d", w.releaseBucketsWithAdd()), nil
+	case 'A':
+		if len(op) != 2 || (op[1] != 'r' && op[1] != 'c') {
+			return "", fmt.Errorf("bad op %q", op)
+		}
+		return w.addCacheWithMaintenance(op[1]), nil
 	}
 	return "", fmt.Errorf("bad op %q", op)
 }
@@ -278,9 +339,13 @@ func (w *world) checkQuiescent() {
 		w.violate("cache/cleaner.go:getSize", "accounted-size-differs-from-live-entries", fmt.Sprintf("getSize = %d, sum of live entry sizes = %d", int64(got), want))
 	}
 	bs := w.cl.VerifBuckets()
+	gens := w.cl.VerifGenerations()
 	for i, c := range w.caches {
 		if w.rel[i] {
 			continue
+		}
+		if len(gens) == 0 || c.VerifCurrentGeneration() != gens[len(gens)-1] {
+			w.violate("cache/cleaner.go:AddBucket", "bucket-generation-not-last", fmt.Sprintf("unreleased cache %d allocates into a generation (position %s) that is not the cleaner's last generation", i, w.genPos(c.VerifCurrentGeneration())))
 		}
 		found := false
 		_ = c
@@ -344,9 +409,16 @@ func runSeq(limit uint64, ops []string) (req, impl string, viol *vh.Violation, e
 	w := newWorld(limit)
 	var outs, mops []string
 	for _, op := range ops {
+		sizeBefore := int64(w.cl.VerifGetSize())
 		o, e := w.doOp(op)
 		if e != nil {
 			return "", "", nil, e
+		}
+		if op[0] == 'A' { // for the model: NewCache, then the maintainer call that had to wait for AddBucket
+			mops = append(mops, "n", op[1:])
+			outs = append(outs, fmt.Sprintf("-@%d", sizeBefore), fmt.Sprintf("%s@%d", o, int64(w.cl.VerifGetSize())))
+			w.checkQuiescent()
+			continue
 		}
 		outs = append(outs, fmt.Sprintf("%s@%d", o, int64(w.cl.VerifGetSize())))
 		if op == "B" { // for the model: ReleaseBuckets, then the AddBucket that had to wait for it
@@ -372,7 +444,7 @@ func validSeq(ops []string) bool {
 	rel := map[int]bool{}
 	for _, op := range ops {
 		switch op[0] {
-		case 'n', 'B':
+		case 'n', 'B', 'A':
 			n++
 		case 'g', 'e', 'p', 'x':
 			c, _ := strconv.Atoi(strings.Split(op[1:], ".")[0])
@@ -434,7 +506,14 @@ func genSeq(r *vh.RNG, n int) (uint64, []string) {
 			rel[c] = true
 		default:
 			if len(rel) < 7 {
-				ops = append(ops, "n")
+				switch r.Intn(30) {
+				case 0:
+					ops = append(ops, "Ar")
+				case 1:
+					ops = append(ops, "Ac")
+				default:
+					ops = append(ops, "n")
+				}
 				rel = append(rel, false)
 			}
 		}
@@ -621,6 +700,17 @@ func main() {
 		// 2b. ReleaseBuckets with a cache being created concurrently (AddBucket attempted from inside the poll)
 		for _, sc := range []string{"n;B;g1.1.5.10", "n;n;x0;B;g2.1.5.10;b", "n;n;n;x0;x2;B;x1;B;r;g3.1.1.600;g4.1.2.600;c", "B;g0.1.1.1", "n;x0;B;B;g1.1.1.1;g2.1.1.1"} {
 			addSeq(1000, strings.Split(sc, ";"), "rb-concurrent-add")
+		}
+		// 2b'. a cache registered (AddBucket) while the maintainer's Rotate / Cleanup is attempted at the very moment
+		//      AddBucket hands the generation to the new bucket
+		for _, sc := range []string{
+			"n;g0.1.1.300;Ar;g1.1.2.300;g1.2.3.300;r;c;z;g1.1.4.300",
+			"n;g0.1.1.600;g0.2.2.600;Ac;g1.1.3.300;g1.2.4.300;g1.3.5.300;g1.4.6.300;c;z",
+			"Ar;g0.1.1.100;r;Ar;g1.1.2.100;g0.1.3.100",
+			"n;g0.1.1.2000;Ac;g1.1.2.400;g1.2.3.400;g1.3.4.400;c;g1.1.5.400;z;c",
+			"n;n;g0.1.1.300;x0;Ar;b;g2.1.2.300;g1.1.3.300;r;g2.1.4.300;c",
+		} {
+			addSeq(1000, strings.Split(sc, ";"), "addbucket-vs-maintainer")
 		}
 		// 2c. histories that reach recreatePayload: N entries, rotate, k more, Cleanup (limit 3000 keeps the k new ones),
 		//     around both thresholds (N = 199/200/201, k*10 vs N+k), then more calls and a second pass
